@@ -106,6 +106,7 @@ type Input struct {
 	Stress     *StressInput     `json:"stress,omitempty"`
 	Unobserved *UnobservedInput `json:"unobserved,omitempty"`
 	RTCPSize   *RTCPSizeInput   `json:"rtcpsize,omitempty"`
+	DescGap    *DescGapInput    `json:"descgap,omitempty"`
 	Raw        string           `json:"raw,omitempty"`
 }
 
@@ -1085,7 +1086,7 @@ func runCorpus(c *corr.Ctx) {
 				c.Note("corpus file " + filepath.Base(f) + ": " + e.Error())
 				continue
 			}
-			if (in.Kind == "e2e" || in.Kind == "multi" || in.Kind == "switch" || in.Kind == "unobserved" || in.Kind == "rtcpsize") && os.Getenv("VERIF_SEC_ONLY") == "unit" {
+			if (in.Kind == "e2e" || in.Kind == "multi" || in.Kind == "switch" || in.Kind == "unobserved" || in.Kind == "rtcpsize" || in.Kind == "descgap") && os.Getenv("VERIF_SEC_ONLY") == "unit" {
 				continue
 			}
 			replayNamed(c, &in, "corpus-"+strings.TrimSuffix(filepath.Base(f), ".json"))
